@@ -89,6 +89,33 @@ def _poison(pinblock, key):
                 pass
 
 
+def _still_same(case, acc, pb, fmt, want, pin, pan):
+    """the same object after other questions were put to it (PVV for this and for ANOTHER card number, its PIN, its
+    text forms, its bytes again): the block it gives must still be the block of the PIN and card number it was built
+    from. -> True if a violation was recorded"""
+    other = ('9' if pan[:1] != '9' else '8') + pan[1:-3][::-1] + '123'
+    for q in (lambda: pb.to_pvv(pvv_key='0123456789ABCDEFFEDCBA9876543210', key_index=2, card_number=pan),
+              lambda: pb.pin, lambda: str(pb), lambda: repr(pb), lambda: pb.to_bytes(),
+              lambda: pb.to_pvv('0123456789ABCDEFFEDCBA9876543210', 1, card_number=other)):
+        try:
+            q()
+        except Exception:
+            pass
+    try:
+        again = pb.to_bytes()
+        pin_now = pb.pin
+    except Exception as ex:
+        acc.viol('c13.%s.after_queries' % fmt, case, repr(ex), want.hex(),
+                 'the block of the same object after it was asked for a PVV / its PIN / its text form')
+        return True
+    if again != want or pin_now != pin:
+        acc.viol('c13.%s.after_queries' % fmt, case, '%s pin %s' % (again.hex(), pin_now), '%s pin %s' % (want.hex(), pin),
+                 'the block of the same object after it was asked for a PVV (also for another card number), its PIN '
+                 'and its text form')
+        return True
+    return False
+
+
 def _run(case, acc, pinblock, pin, pan, fmt, key, fill, stub):
     if case.get('after_failed_call') and key:
         _poison(pinblock, key)
@@ -116,6 +143,11 @@ def _run(case, acc, pinblock, pin, pan, fmt, key, fill, stub):
             back = cls.from_enc_bytes(enc_pin_block=want_ct, card_number=pan, key=key).pin
             if back != pin:
                 acc.viol('c13.iso0.decrypt', case, back, pin, 'PIN from the encrypted block')
+                return
+        if _still_same(case, acc, pb, 'iso0', want, pin, pan):
+            return
+        if key and pb.to_enc_bytes(key=key) != des_ref.tdes_ecb_encrypt(bytes.fromhex(key), want):
+            acc.viol('c13.iso0.after_queries', case, 'encrypted block changed', 'unchanged')
         return
     # format 4
     cls = pinblock.Iso4PinBlock
@@ -168,6 +200,8 @@ def _run(case, acc, pinblock, pin, pan, fmt, key, fill, stub):
         back = cls.from_enc_bytes(enc_pin_block=want_ct, key=key).pin
         if back != pin:
             acc.viol('c13.iso4.decrypt', case, back, pin, 'PIN from the encrypted block')
+            return
+    _still_same(case, acc, pb, 'iso4', want, pin, pan)
 
 
 CT_PATTERNS = ['0000000000000000', 'd86e17c0404d4700', '00112233445566', 'ffffffffffffffff', '2020202020202020',
